@@ -36,6 +36,7 @@ RULE = (
     "(producer config, mode, k) / history."
     " A third of the histories use prefixes / file roots containing [ ] * ? for the observed run; a file the run created or rewrote counts as its intermediate."
     " cli_tsv also runs the command line with the k-th write of its PIN conversion failing: the input must stay the original or the complete conversion and a rerun must reproduce the clean results."
+    " cli_tsv leftovers include a conversion longer than the new one."
 )
 ASSUMPTIONS = [
     "files that existed before the observed run and are not touched by it are never counted against it",
@@ -62,7 +63,7 @@ def plan(seed, tier):
     nh = 8 if tier == "quick" else 400
     for i in range(nh):
         cases.append({"class": "histories", "index": i, "cost": 8})
-    for i in range(3 if tier == "quick" else 36):
+    for i in range(4 if tier == "quick" else 36):
         cases.append({"class": "cli_tsv", "index": i, "cost": 25})
     for i in range(6 if tier == "quick" else 120):
         cases.append({"class": "rollup_history", "index": i, "cost": 10})
@@ -350,8 +351,11 @@ def run_cli_tsv(case):
             res.violate("input_not_pure_conversion", "clean_dir", head=cpin.read_text()[:300])
             return res
         clean = snapshot(cdir / "out")
-        kind = ["complete_foreign", "torn_own", "complete_own"][case["index"] % 3]
-        if kind == "complete_foreign":
+        kind = ["complete_foreign", "torn_own", "complete_own", "longer_foreign"][case["index"] % 4]
+        if kind == "longer_foreign":
+            # left by an earlier run on a bigger file of the same name: longer than the new conversion will be
+            leftover = expected + "\n".join(exp_lines[1:200]).replace("f0_psm", "STALE_psm") + "\n"
+        elif kind == "complete_foreign":
             leftover = "\t".join(cols) + "\n" + "\n".join(exp_lines[1:40]).replace("f0_psm", "STALE_psm") + "\n"
         elif kind == "torn_own":
             leftover = expected[: int(len(expected) * 0.37)]
